@@ -8,7 +8,7 @@ concrete arguments and the model state, never from the generator's intention.
 from detsim.core import HistoryWorld, Violation, StopRun
 from refmodel import tlb, hashmap
 from refmodel.rcell import RCell, RCellError, bytes_to_bits
-from .common import (call, to01, tvm_bits, lib_cell_from_rcell, rcell_from_lib, struct_diff, addr_tuple,
+from .common import (call, call_shallow, to01, tvm_bits, lib_cell_from_rcell, rcell_from_lib, struct_diff, addr_tuple,
                      Cell, Builder, Slice, Address, ExternalAddress, bitarray)
 
 UINT_WIDTHS = [1, 2, 3, 7, 8, 9, 15, 16, 17, 31, 32, 33, 63, 64, 65, 127, 128, 255, 256]
@@ -170,7 +170,8 @@ def _lib_store(st, be, op, r=None):
     if t == 'string':
         return call(b.store_string, op['v'])
     if t == 'snake_bytes':
-        return call(b.store_snake_bytes, snake_data(op))
+        data = snake_data(op)
+        return (call_shallow if len(data) > 100000 else call)(b.store_snake_bytes, data)
     if t == 'snake_string':
         if op.get('prefix'):
             return call(b.store_snake_string, op['v'], True)
@@ -371,6 +372,8 @@ def lib_load(se, op):
         return call(getattr(s, pre + 'dict'), n)
     if t == 'skip':
         return call(s.skip_bits, n)
+    if t in ('snake_bytes', 'snake_string'):
+        return call_shallow(getattr(s, pre + t))     # a long chain: from the bottom of an empty stack (see call_shallow)
     return call(getattr(s, pre + t))
 
 
